@@ -360,7 +360,11 @@ def op_scale(st, o):
         st.stats.probe("reference_is_own_corner_array")
     st.touch(ref)
     farg = dec(o["farg"]) if "farg" in o else (list(f) if isinstance(f, list) else f)
-    return _transform(st, o, "scale", (farg,), kw, lambda m: m.scale(f, ref))
+    args = (farg,)
+    if o.get("positional") and "reference_point" in kw:
+        args, kw = (farg, kw["reference_point"]), {}  # scale(factor, reference_point): the documented order, positionally
+        st.stats.probe("positional_arguments")
+    return _transform(st, o, "scale", args, kw, lambda m: m.scale(f, ref))
 
 
 @op("rotate90")
@@ -389,11 +393,16 @@ def op_rotate90(st, o):
         ref, kw["reference_point"] = [float(x) for x in arr], arr
         st.stats.probe("reference_is_own_corner_array")
     st.touch(ref)
+    args = (o["ax1"], o["ax2"])
+    if o.get("positional"):
+        # rotate90(ax1, ax2, k, reference_point): the documented order, positionally
+        args = (o["ax1"], o["ax2"], kw.pop("k")) + ((kw.pop("reference_point"),) if "reference_point" in kw else ())
+        st.stats.probe("positional_arguments")
     return _transform(
         st,
         o,
         "rotate90",
-        (o["ax1"], o["ax2"]),
+        args,
         kw,
         lambda m: m.rotate90(ia, ib, k, ref),
         lambda fm, m: rot_field_model(fm, m, ia, ib, k, ref),
